@@ -28,6 +28,19 @@ ASSUMPTIONS = ['the association is reflexive, conditional 1:1 with two distinct 
 CHUNK = 1500
 CASE_TIMEOUT_S = 10
 SCHEMA = mc.SHAPES['reflexive']
+# the same class with a SECOND reflexive association (own referential attribute), with other / with the same phrases
+SCHEMAS = {
+    'r1': SCHEMA,
+    'r2': {'classes': [mc.C('N', 'Id', [('Next_Id', 'unique_id'), ('Other_Id', 'unique_id')])],
+           'assocs': [mc.A('R2', 0, ['Next_Id'], False, True, 'precedes', 0, ['Id'], False, True, 'succeeds'),
+                      mc.A('R7', 0, ['Other_Id'], False, True, 'leads', 0, ['Id'], False, True, 'follows')]},
+    'r2s': {'classes': [mc.C('N', 'Id', [('Next_Id', 'unique_id'), ('Other_Id', 'unique_id')])],
+            'assocs': [mc.A('R2', 0, ['Next_Id'], False, True, 'precedes', 0, ['Id'], False, True, 'succeeds'),
+                       mc.A('R7', 0, ['Other_Id'], False, True, 'precedes', 0, ['Id'], False, True, 'succeeds')]},
+}
+PHRASES = {'r1': {'R2': ('precedes', 'succeeds')},
+           'r2': {'R2': ('precedes', 'succeeds'), 'R7': ('leads', 'follows')},
+           'r2s': {'R2': ('precedes', 'succeeds'), 'R7': ('precedes', 'succeeds')}}
 _x = None
 
 
@@ -58,7 +71,8 @@ def arrangements(n):
                 yield key
 
 
-def build_ops(n, chains, rings=(), edits=()):
+def build_ops(n, chains, rings=(), edits=(), chains_b=(), fwd_b='leads'):
+    """the recipe as operations; `rejected` = indexes of the relate attempts the recipe EXPECTS to be refused"""
     ops = [['new', 0] for _ in range(n)]
     for c in chains:
         for a, b in zip(c, c[1:]):
@@ -66,12 +80,26 @@ def build_ops(n, chains, rings=(), edits=()):
     for r in rings:
         for a, b in zip(r, r[1:] + r[:1]):
             ops.append(['relate', a, b, 'R2', 'precedes'])
+    for c in chains_b:         # the second reflexive association holds its own, unrelated chains
+        for a, b in zip(c, c[1:]):
+            ops.append(['relate', a, b, 'R7', fwd_b])
     for e in edits:            # the chains are EDITED after they were built: unrelate / relate / delete
         if e[0] == 'delete':
             ops.append(['delete', e[1]])
+        elif e[0] == 'tryrelate':   # an attempt that must be refused and must leave no trace
+            ops.append(['relate', e[1], e[2], 'R2', 'precedes'])
         else:
             ops.append([e[0], e[1], e[2], 'R2', 'precedes'])
     return ops
+
+
+def case_ops(case):
+    sch = case.get('schema', 'r1')
+    fwd_b = PHRASES[sch].get('R7', ('leads',))[0]
+    ops = build_ops(case['n'], case['chains'], case['rings'], case.get('edits', ()), case.get('chains_b', ()), fwd_b)
+    k = len(ops) - len(case.get('edits', ()))
+    rejected = set(k + i for i, e in enumerate(case.get('edits', ())) if e[0] == 'tryrelate')
+    return ops, rejected
 
 
 def structure_after(case):
@@ -189,8 +217,17 @@ def generate(ctx):
         for _ in range(r.randint(1, 3)):
             cs, rs, live = structure_after(case)
             links = [(a, b) for c in cs for a, b in zip(c, c[1:])] + [(a, b) for rg in rs for a, b in zip(rg, rg[1:] + rg[:1])]
-            kind = r.choice(['unrelate', 'unrelate', 'delete', 'move'])
-            if kind == 'unrelate' and links:
+            kind = r.choice(['unrelate', 'unrelate', 'delete', 'move', 'try', 'try'])
+            if kind == 'try':
+                # a relate that must be REFUSED (the referrer already has a partner, or the referred one has):
+                # the rejected attempt must not leave half a link behind that a later sort would follow
+                nxt = dict(links)
+                prv = dict((b, a) for a, b in links)
+                cands = [(a, b) for a in sorted(live) for b in sorted(live) if (a in nxt or b in prv) and nxt.get(a) != b]
+                if cands:
+                    a, b = r.choice(cands)
+                    case['edits'].append(['tryrelate', a, b])
+            elif kind == 'unrelate' and links:
                 a, b = r.choice(links)
                 case['edits'].append(['unrelate', a, b])
             elif kind == 'delete' and len(live) > 1:
@@ -209,6 +246,32 @@ def generate(ctx):
         case['sorts'] = [[sorted(live), 'R2', 'precedes'], [sorted(live), 'R2', 'succeeds'],
                          [order, 'R2', 'precedes'], [order, 'R2', 'succeeds']]
         yield case
+    # a class with TWO reflexive associations: each sort follows its own association only
+    for i in range(ctx.pick(600, 8000)):
+        r = rng.fork('two', i)
+        sch = r.choice(['r2', 'r2s'])
+        n = r.randint(2, 6)
+
+        def arrangement():
+            members = list(range(n))
+            r.shuffle(members)
+            chains, cur = [], []
+            for x in members:
+                cur.append(x)
+                if r.random() < 0.3:
+                    chains.append(cur)
+                    cur = []
+            if cur:
+                chains.append(cur)
+            return chains
+        order = list(range(n))
+        r.shuffle(order)
+        sorts = []
+        for rel in ('R2', 'R7'):
+            for ph in PHRASES[sch][rel]:
+                sorts.append([list(range(n)), rel, ph])
+                sorts.append([list(order), rel, ph])
+        yield {'n': n, 'chains': arrangement(), 'rings': [], 'chains_b': arrangement(), 'schema': sch, 'fam': 'two', 'sorts': sorts}
     for i in range(ctx.pick(12, 150)):
         r = rng.fork('big', i)
         n = r.randint(50, ctx.pick(200, 500))
@@ -228,9 +291,14 @@ def generate(ctx):
                'sorts': [[order, 'R2', 'precedes'], [order, 'R2', 'succeeds']]}
 
 
-def expected(case, order, phrase):
+def expected(case, order, phrase, rel='R2'):
     """the statement, evaluated from the recipe; None = the statement does not determine the result"""
     chains, rings, live = structure_after(case)
+    fwd = PHRASES[case.get('schema', 'r1')][rel][0]
+    if rel == 'R7':
+        used = set(x for c in case['chains_b'] for x in c)
+        chains, rings = [list(c) for c in case['chains_b']] + [[x] for x in sorted(live) if x not in used], []
+    phrase = 'precedes' if phrase == fwd else 'succeeds'
     if not order:
         return []
     whole = sorted(order) == sorted(live) and len(set(order)) == len(order)
@@ -256,12 +324,19 @@ def expected(case, order, phrase):
 
 
 def run_impl(case):
-    model = mc.Model(SCHEMA)
-    for op in build_ops(case['n'], case['chains'], case['rings'], case.get('edits', ())):
-        out = model.apply(op)
-        if str(out) != 'ok':
-            raise RuntimeError('recipe op rejected: %s %s' % (op, out))
+    sch = case.get('schema', 'r1')
+    model = mc.Model(SCHEMAS[sch])
+    ops, rejected = case_ops(case)
     obs, fails = [], []
+    for i, op in enumerate(ops):
+        out = model.apply(op)
+        if i in rejected:
+            if str(out) == 'ok':
+                fails.append({'sig': 'recipe-relate-accepted', 'what': 'the relate %s on a conditional 1:1 association was accepted '
+                              'although a partner exists (recipe %s)' % (op, ops[:i])})
+        elif str(out) != 'ok':
+            # every op of the recipe is legal on the structure built so far: a refusal is a finding, not a harness error
+            fails.append({'sig': 'recipe-op-rejected', 'what': 'the legal operation %s was refused with %s after %s' % (op, out, ops[:i])})
     for (order, rel, ph) in case['sorts']:
         qs = _x.QuerySet([model.insts[i] for i in order])
         try:
@@ -269,14 +344,14 @@ def run_impl(case):
         except _x.UnknownLinkException:
             res = Sym('UnknownLinkException')
         obs.append(res)
-        if rel != 'R2' or ph not in ('precedes', 'succeeds'):
+        if rel not in PHRASES[sch] or ph not in PHRASES[sch][rel]:
             if order and res != Sym('UnknownLinkException'):
                 fails.append({'sig': 'unknown-phrase-accepted', 'what': 'sort_reflexive(%s, %s, %r) returned %r' % (order, rel, ph, res)})
             continue
         if res == Sym('UnknownLinkException'):
             fails.append({'sig': 'known-phrase-rejected', 'what': 'sort_reflexive(%s, %s, %r) raised UnknownLinkException' % (order, rel, ph)})
             continue
-        want = expected(case, order, ph)
+        want = expected(case, order, ph, rel)
         if want is not None and res != want:
             fails.append({'sig': 'order-' + case['fam'], 'what': 'chains %s rings %s: sort_reflexive(set in order %s, %s, %r) returned %s, '
                           'the succession order is %s' % (case['chains'], case['rings'], order, rel, ph, res, want)})
@@ -290,14 +365,18 @@ def run_impl(case):
     except _x.MetaException:
         pass
     nontrivial = any(len(c) >= 2 for c in case['chains']) or bool(case['rings'])
+    if rejected:
+        stats_extra = {'rejected_relates': len(rejected)}
+    else:
+        stats_extra = {}
     return {'obs': obs, 'd_fail': fails[:3], 'nontrivial': nontrivial,
             'key': dumps([str(case['chains']), str(case['rings']), str(case['sorts'])]),
-            'stats': {'fam_' + case['fam']: 1, 'sorts': len(case['sorts'])}}
+            'stats': dict({'fam_' + case['fam']: 1, 'sorts': len(case['sorts'])}, **stats_extra)}
 
 
 def model_line(case):
-    ops = build_ops(case['n'], case['chains'], case['rings'], case.get('edits', ()))
-    return dumps([Sym('sortrefl'), mc.schema_sexp(SCHEMA), [Sym('ops')] + [mc.op_sexp(o) for o in ops],
+    ops, _ = case_ops(case)
+    return dumps([Sym('sortrefl'), mc.schema_sexp(SCHEMAS[case.get('schema', 'r1')]), [Sym('ops')] + [mc.op_sexp(o) for o in ops],
                   [Sym('sorts')] + [[[Sym('set')] + list(o), r, p] for (o, r, p) in case['sorts']]])
 
 
